@@ -92,9 +92,19 @@ def mk_type(rng, kind):
 
 def attr_values(rng):
     return [
-        None, True, False, 0, 1, -1, 200, 401, 403, 400, 404, 409, 408, 429, 500, 503, 599, 600, 10**30, -500, 422,
+        None, True, False, 0, 1, -1, 200, 401, 403, 400, 404, 409, 408, 429, 500, 503, 599, 600, 10**30, -500, 422, 10**5000, -(10**5000), 10**4299, 10**4300,
         0.0, 429.0, 1.5, math.nan, math.inf, -math.inf, "", "429", "abc", "500", b"429", b"", (), (429,), [500], {"a": 1}, {1, 2}, frozenset(), object(), 3 + 4j, range(3), Ellipsis, NotImplemented, ValueError("x"),
     ]
+
+
+def srepr(v):
+    """repr that survives ints beyond the str() digit limit."""
+    if type(v) is int and v.bit_length() > 400:
+        return f"<int sign={'-' if v < 0 else '+'} bits={v.bit_length()}>"
+    try:
+        return repr(v)[:40]
+    except Exception as x:  # noqa: BLE001
+        return f"<unreprable {type(v).__name__}: {type(x).__name__}>"
 
 
 def is_plain_int(v):
@@ -151,10 +161,10 @@ def work(ctx, tier):
             for a in rng.sample(["status", "code", "status_code", "sqlstate"], rng.randint(1, 4)):
                 attrs[a] = rng.choice(vals)
         if rng.random() < 0.2:
-            attrs["sqlstate"] = rng.choice(list(SQL) + ["", None, 0, 40001, "99999", b"40001", ["40001"], "hyt00", "0800"])
+            attrs["sqlstate"] = rng.choice(list(SQL) + ["", None, 0, 40001, "99999", b"40001", ["40001"], "hyt00", "0800", 10**5000, -(10**5000), 10**30, 1.5, math.nan, True, (), object()])
         args = None
         if rng.random() < 0.3:
-            args = tuple(rng.choice([429, 503, 404, 99, 600, 1000, True, "x", 5.0, None, "40001", "[HYT00] timeout", "state 08S01 lost", b"x"]) for _ in range(rng.randint(1, 3)))
+            args = tuple(rng.choice([429, 503, 404, 99, 600, 1000, True, "x", 5.0, None, "40001", "[HYT00] timeout", "state 08S01 lost", b"x", 10**5000, math.nan, (429,), [503]]) for _ in range(rng.randint(1, 3)))
         settable = True
         for a, v in attrs.items():
             try:
@@ -168,7 +178,7 @@ def work(ctx, tier):
                 args = None
         if not settable:
             continue
-        case = {"type": tdesc, "type_name": type(e).__name__, "attrs": {k: repr(v)[:40] for k, v in attrs.items()}, "args": repr(getattr(e, "args", None))[:80]}
+        case = {"type": tdesc, "type_name": type(e).__name__, "attrs": {k: srepr(v) for k, v in attrs.items()}, "args": [srepr(x) for x in getattr(e, "args", ())]}
         ctx.cnt["type_kind:" + kind] += 1
         for a, v in attrs.items():
             ctx.cnt["attr_value_kind:" + type(v).__name__] += 1
